@@ -20,6 +20,12 @@ import (
 
 var fset = token.NewFileSet()
 
+// soft problems: a broken tie (exit 1) reported AFTER Gen has been written, so the model driver still builds and
+// the correspondence run / oracles can produce a concrete failing input.
+var problems []string
+
+func problem(f string, a ...any) { problems = append(problems, fmt.Sprintf(f, a...)) }
+
 func die(f string, a ...any) {
 	fmt.Fprintf(os.Stderr, "c28 translator: BROKEN TIE: "+f+"\n", a...)
 	os.Exit(1)
@@ -372,6 +378,48 @@ func main() {
 		}
 	}
 
+	// ---- confd side dynamics: the policy is read from the CURRENT cached resource ---------------
+	pip := str(funcDecl(bf, "processIPPools").Body)
+	for _, frag := range []string{"policy := clusterRoutePolicyFromBGPConfig(pc.globalBGPConfig, logCtx)",
+		"if ipVersion == 6 || ipVersion == 4 && localSubnetErr == nil { statement = c.processIPPool(&ippool, policy, true, filterActionForKernel, localSubnet, ipVersion)"} {
+		if !strings.Contains(pip, frag) {
+			die("processIPPools lost the modelled fragment %q", frag)
+		}
+	}
+	clf := parse(repo, "confd/pkg/backends/calico/client.go")
+	ubc := funcDecl(clf, "updateBGPConfigCache")
+	okCache := false
+	if len(ubc.Body.List) > 0 {
+		if is, ok := ubc.Body.List[0].(*ast.IfStmt); ok && str(is.Cond) == "resName == globalConfigName" {
+			for _, st := range is.Body.List { // must be an UNCONDITIONAL statement of the branch
+				if str(st) == "c.globalBGPConfig = v3res" {
+					okCache = true
+				}
+			}
+		}
+	}
+	if !okCache {
+		problem("updateBGPConfigCache no longer caches the event's resource unconditionally (c.globalBGPConfig = v3res, nil on delete): the model takes the setting from the CURRENT resource")
+	}
+	if !strings.Contains(str(funcDecl(clf, "onUpdates").Body), "v3res, _ := u.Value.(*apiv3.BGPConfiguration) c.updateBGPConfigCache(v3key.Name, v3res,") {
+		problem("onUpdates no longer hands every BGPConfiguration event (nil value on delete) to updateBGPConfigCache")
+	}
+	if got := str(funcDecl(clf, "getBGPConfig").Body); !strings.HasSuffix(got, "return c.globalBGPConfig }") {
+		die("getBGPConfig changed: %s", got)
+	}
+	for _, tf := range []string{"node/filesystem/etc/calico/confd/templates/bird_ipam.cfg.template", "node/filesystem/etc/calico/confd/templates/bird6_ipam.cfg.template"} {
+		tb, err := os.ReadFile(filepath.Join(repo, tf))
+		if err != nil {
+			die("template %s: %v", tf, err)
+		}
+		t := string(tb)
+		i := strings.Index(t, "filter calico_kernel_programming {")
+		j := strings.Index(t, "{{- range $line := $config.KernelFilterForIPPools }}")
+		if i < 0 || j < i || !regexp.MustCompile(`(?s)^\{\{- range \$line := \$config\.KernelFilterForIPPools \}\}\s*\{\{ \$line \}\}\s*\{\{- end\}\}\s*accept;`).MatchString(t[j:]) {
+			die("%s: calico_kernel_programming no longer ends with the pool statements followed by a catch-all accept", tf)
+		}
+	}
+
 	// ---- Felix side ----------------------------------------------------------
 	cf := parse(repo, "felix/config/config_params.go")
 	eqSet := func(fn string) []string {
@@ -500,5 +548,11 @@ func main() {
 	b.WriteString("end CalicoVerif.C28.Gen\n")
 	if err := os.WriteFile(out, []byte(b.String()), 0o644); err != nil {
 		die("write: %v", err)
+	}
+	if len(problems) > 0 {
+		for _, p := range problems {
+			fmt.Fprintf(os.Stderr, "c28 translator: BROKEN TIE: %s\n", p)
+		}
+		os.Exit(1)
 	}
 }
